@@ -53,6 +53,7 @@ Failing(s, e) ==
   IF ~IsRas(e) THEN {"EncodeTotal"}
   ELSE IF ~ShapeOK(s, e) THEN {"Length"}
   ELSE (IF \E i \in 1..NE(e) : ~AbsSilent(e.op.xc[i], e.ret.r[i]) THEN {"SilentAtZero"} ELSE {})
+       \cup (IF \E i \in 1..NE(e) : ~AbsNoForced(e.op.xc[i], e.ret.r[i]) THEN {"NoForcedSpike"} ELSE {})
        \cup (IF Sane(s.cfg) /\ \E i \in 1..NE(e) : ~AbsMinGap(s.cfg, e.ret.r[i]) THEN {"MinGap"} ELSE {})
        \cup (IF \E i \in 1..NE(e) : ~AbsSaturated(s.cfg, e.op.xc[i], e.ret.r[i]) THEN {"Saturated"} ELSE {})
        \cup (IF ~ReproOK(s, e) THEN {"Reproducible"} ELSE {})
